@@ -166,6 +166,35 @@ def s_writers(F, R):
                         where=loc(x))
     R.floor("S-writers", "sink call sites", n, 10)
     R.analysed["sink_call_sites"] = n
+    _buffered(F, R)
+
+
+BUFFERED = ("BufWriter", "LineWriter", "BufStream")
+
+
+def _buffered(F, R):
+    """No buffering adapter sits between an encoder and the caller's sink unless it is explicitly flushed with
+    the result propagated in the function that created it: a BufWriter dropped unflushed writes in Drop and discards the error."""
+    made = 0
+    for fid, f, b in all_bodies(F):
+        ctor = [x for x in walk_all(b) if x.get("k") == "Call" and any(w in (x["fn"].get("def") or "") for w in BUFFERED)
+                and x["fn"].get("name") in ("new", "with_capacity")]
+        if not ctor:
+            continue
+        made += len(ctor)
+        flushed = False
+        for x in walk_all(b):
+            if x.get("k") == "Try":
+                inner = strip(x["e"])
+                while inner.get("k") == "Await":
+                    inner = strip(inner["e"])
+                if inner.get("k") == "Call" and inner["fn"].get("name") in ("flush", "into_inner") and \
+                        any(w in ((inner["args"][0].get("ty") if inner["args"] else "") or "") + (inner["fn"].get("def") or "") + (inner["fn"].get("self_ty") or "") for w in BUFFERED):
+                    flushed = True
+        R.check(flushed, "S-writers", "%s/buffered-unflushed" % f["root"],
+                "%s wraps the sink in %s but never propagates a flush()/into_inner() result: write errors raised when the buffer is "
+                "dropped are discarded and the encoder reports success" % (f["root"], ctor[0]["fn"].get("def")), where=loc(ctor[0]))
+    R.analysed["buffering_adapters"] = made
 
 
 # ---- S-ioerr / H-fromio / H-toio / T-eof -------------------------------------------------------------------
@@ -183,6 +212,16 @@ def _kind_preserving_closure(F, cid):
         ok = k.get("k") == "Call" and k["fn"].get("def") == "std::io::error::Error::kind" and pp(strip(k["args"][0])) == pname
         return ok, pp(b)[:120]
     return False, pp(b)[:120]
+
+
+IO_FROM = ("<common::error::Error as core::convert::From<std::io::error::Error>>::from",
+           "<v5::error::ErrorV5 as core::convert::From<std::io::error::Error>>::from")
+
+
+def _is_io_from_ref(clo):
+    """`map_err(Error::from)`: a reference to the crate's own From<io::Error> conversion (kind-preserving by H-fromio)."""
+    clo = strip(clo)
+    return clo.get("k") == "Zst" and (clo.get("fn") or {}).get("res") in IO_FROM
 
 
 def s_ioerr(F, R):
@@ -219,6 +258,8 @@ def s_ioerr(F, R):
                 ok, desc = (False, pp(clo)[:80])
                 if clo.get("k") == "Closure":
                     ok, desc = _kind_preserving_closure(F, clo["def"])
+                elif _is_io_from_ref(clo):
+                    ok, desc = True, "From<io::Error>"
                 nmap += 1
                 R.check(ok, "S-ioerr", key + "/map_err",
                         "%s maps an I/O error with %s: the error kind of the transport is not preserved" % (f["root"], desc), where=loc(first))
@@ -374,6 +415,10 @@ def h_noswallow(F, R):
             n += 1
             recv, clo = x["args"][0], x["args"][1]
             key = "%s/%d" % (f["root"], n)
+            if _is_io_from_ref(clo):
+                cats["io"] += 1
+                R.ok("H-noswallow", key, "the crate's From<io::Error> conversion")
+                continue
             if clo.get("k") != "Closure":
                 R.fail("H-noswallow", key, "map_err with a non-closure %s" % pp(clo)[:60], where=loc(x))
                 continue
@@ -429,6 +474,101 @@ def h_noswallow(F, R):
                     bad += 1
                     R.fail("H-noswallow", "%s/result-%s" % (f["root"], x["fn"]["name"]), "%s discards an error with .%s()" % (f["root"], x["fn"]["name"]), where=loc(x))
     R.ok("H-noswallow", "no-discarding-combinators", {"decode_closure_functions": len(dec)})
+    _result_matches(F, R, dec)
+
+
+IO_CARRYING = ("common::error::Error", "v5::error::ErrorV5", "std::io::error::Error")
+MATCH_EXEMPT = {
+    # the documented EOF -> Ok(None) mapping of the blocking wrappers: decided by H-block (evaluated)
+    "v3::packet::Packet::decode": "H-block", "v5::packet::Packet::decode": "H-block",
+}
+
+
+def _err_type(ty):
+    """Error type of `core::result::Result<T, E>` (top-level), None for other types."""
+    ty = (ty or "").lstrip("&").replace("mut ", "")
+    if not ty.startswith("core::result::Result<") or not ty.endswith(">"):
+        return None
+    inner = ty[len("core::result::Result<"):-1]
+    depth = 0
+    for i in range(len(inner) - 1, -1, -1):
+        c = inner[i]
+        if c == ">":
+            depth += 1
+        elif c == "<":
+            depth -= 1
+        elif c == "," and depth == 0:
+            return inner[i + 1:].strip()
+    return None
+
+
+def _pat_root(p):
+    """'Ok' / 'Err' / 'any' for the outermost constructor a pattern tests."""
+    while p.get("k") in ("Deref", "AscribeUserType") and p.get("sub"):
+        p = p["sub"]
+    if p.get("k") == "Binding" and p.get("sub"):
+        return _pat_root(p["sub"])
+    if p.get("k") == "Variant":
+        return p.get("variant")
+    if p.get("k") == "Or":
+        roots = {_pat_root(q) for q in p.get("pats", [])}
+        return roots.pop() if len(roots) == 1 else "any"
+    return "any"
+
+
+def _propagates(body):
+    for y in walk_all(body):
+        if y.get("k") in ("Try", "Return"):
+            return True
+        if y.get("k") == "Adt" and y.get("variant") == "Err":
+            return True
+    return False
+
+
+def _result_matches(F, R, dec):
+    """A Result that can carry an I/O error (crate error types, io::Error) is consumed by `?` or by a match /
+    if-let / let-else in which every arm that can see an Err propagates it (returns, `?`s or rebuilds an Err).
+    An arm such as `Err(e) if e.is_eof() => None` turns 'input ended' into a value."""
+    seen = 0
+    for fid in sorted(dec):
+        f = F.fns.get(fid)
+        if not f or not f.get("thir"):
+            continue
+        b = nbody(F, fid) if f["kind"] != "Closure" else _closure_body(F, fid)
+        root = f["root"]
+        for x in walk_all(b):
+            sites = []
+            if x.get("k") == "Match" and not x.get("src", "Normal").startswith(("TryDesugar", "AwaitDesugar", "ForLoopDesugar")):
+                et = _err_type(x["scrut"].get("ty"))
+                if et is not None:
+                    sites.append(("match", et, [(a["pat"], a["body"]) for a in x["arms"]]))
+            if x.get("k") == "If":
+                c = unblock(x["cond"])
+                if c.get("k") == "Let":
+                    et = _err_type(c["e"].get("ty"))
+                    if et is not None:
+                        sites.append(("if-let", et, [(c["pat"], x["then"]), ({"k": "Wild"}, x.get("else") or {"k": "Tuple", "items": []})]))
+            if x.get("k") == "Block":
+                for st in x.get("stmts", []):
+                    if st.get("k") == "Let" and st.get("else") is not None and st.get("init") is not None:
+                        et = _err_type(st["init"].get("ty"))
+                        if et is not None:
+                            sites.append(("let-else", et, [(st["pat"], {"k": "Tuple", "items": []}), ({"k": "Wild"}, st["else"])]))
+            for kind, et, arms in sites:
+                if not (et in IO_CARRYING or "::" not in et or et.startswith("<")):
+                    continue      # error of a pure computation (Utf8Error, TryFromIntError, ..)
+                seen += 1
+                if root in MATCH_EXEMPT or root.endswith("::poll"):
+                    continue      # evaluated as a whole by H-block / P-header / P-body
+                for pat, body in arms:
+                    pr = _pat_root(pat)
+                    if pr == "Ok":
+                        continue
+                    okk = _propagates(body)
+                    R.check(okk, "H-noswallow", "%s/%s-on-result/%s" % (root, kind, pp_pat(pat)[:40] if pat.get("k") != "Wild" else "_"),
+                            "%s: a %s on a Result<_, %s> has an arm `%s` that does not propagate the error: an I/O error or end of input becomes a value" % (
+                                root, kind, et, pp_pat(pat)[:60] if pat.get("k") != "Wild" else "_"), where=loc(x))
+    R.floor("H-noswallow", "matches on I/O-carrying results (wrappers and poll included)", seen, 4)
 
 
 # ---- H-async1 / H-asref ------------------------------------------------------------------------------------------
